@@ -42,7 +42,7 @@ theorem loopIdx_inr {α : Type} {fb : Nat → α → SM (α ⊕ Val)} : ∀ (fue
         exact ⟨i, acc, σ, hx⟩
 
 section
-variable {c : Cfg} {P : Prog} {ctx : Ctx}
+variable {c : Cfg} {P : LProg} {ctx : Ctx}
 
 theorem sim_loop {α : Type} {m : Meta} {name : String} {a b : Node} {ca PRO BODY EPI : List LInstr} {ci cs car c0 : Nat}
     (l : Loc) (fb : Val → Nat → α → SM (α ⊕ Val)) (fin : Int → α → SM Val) (acc0 : α)
@@ -53,6 +53,8 @@ theorem sim_loop {α : Type} {m : Meta} {name : String} {a b : Node} {ca PRO BOD
       let r ← loopIdx (fb coll) n.toNat 0 acc0
       epiOf (fin n) r))
     (ha : Sim c P ctx a ca) (hsmall : SmallColl c a) (hK : LoopK P.consts ci cs car c0)
+    (hbl : ∀ (ctx : Ctx) (σ : SState) (e : ErrClass) (σ' : SState),
+      eval (specOf c) ctx (.builtin m name [a, b]) σ = (.error e, σ') → P.blame e l)
     (hS0 : S acc0 = [])
     (hEx : ∀ sc j acc k v, (k = "i" ∨ k = "size" ∨ k = "array") → Extra sc j acc → Extra (scopeSet k v sc) j acc)
     (Hpro : ∀ (k : Nat) (st : List Val) (scs : List Scope) (σ : SState) (coll : Val), CodeAt P k PRO →
@@ -62,17 +64,18 @@ theorem sim_loop {α : Type} {m : Meta} {name : String} {a b : Node} {ca PRO BOD
       CodeAt P k0 (loopCode l ci cs car c0 BODY ++ EPI) →
       (N : Int) < 2 ^ 63 →
       ∀ (i : Nat) (acc : α) (σ : SState) (res : R (α ⊕ Val)) (σ1 : SState) (sc : Scope), i < N →
-        Base sc coll N i → Extra sc i acc → fb coll i acc σ = (res, σ1) →
+        Base sc coll N i → Extra sc i acc → fb coll i acc σ = (res, σ1) → RBlame P l res →
         BodyPost c P S Extra coll N i (k0 + 24 + lsize BODY) (k0 + 32 + lsize BODY) st scs
           (vm (k0 + 24) (S acc ++ st) (sc :: scs) σ c.budget) res σ1)
     (Hepi : ∀ (coll : Val) (N k : Nat) (st : List Val) (scs : List Scope) (σ : SState) (sc' : Scope) (accF : α)
-      (r : R Val) (σ' : SState), CodeAt P k EPI → Base sc' coll N N → Extra sc' N accF → fin N accF σ = (r, σ') →
+      (r : R Val) (σ' : SState), CodeAt P k EPI → Base sc' coll N N → Extra sc' N accF → fin N accF σ = (r, σ') → RBlame P l r →
       Runs c P (vm k (S accF ++ st) (sc' :: scs) σ c.budget) (outcome r (k + lsize EPI) st scs σ' c.budget))
     (Hexit : ∀ (k : Nat) (st : List Val) (scs : List Scope) (σ : SState) (sc' : Scope) (v : Val), CodeAt P k EPI →
       (∃ coll i acc σ0, fb coll i acc σ0 = (.ok (.inr v), σ)) →
       Reach c P (vm (k + 1) (v :: st) (sc' :: scs) σ c.budget) (vm (k + lsize EPI) (v :: st) scs σ c.budget)) :
     Sim c P ctx (.builtin m name [a, b]) (ca ++ PRO ++ emitLoop l ci cs car c0 BODY ++ EPI) := by
   intro k st scs σ res σ' hcode hsc hev
+  have hev0 := hev
   rw [emitLoop_eq] at hcode ⊢
   rw [heval] at hev
   have hca := hcode.left.left.left
@@ -107,6 +110,7 @@ theorem sim_loop {α : Type} {m : Meta} {name : String} {a b : Node} {ca PRO BOD
       simp only [Prod.mk.injEq] at hrest
       obtain ⟨rfl, rfl⟩ := hrest
       have := Runs.len (c := c) (st := st) (scs := sc0 :: scs) (σ := σ1) (lim := c.budget) (x := coll) hlen
+        (by rw [hl]; exact RBlame.err (hbl _ _ _ _ hev0))
       rw [hl] at this
       exact this
     | ok n =>
@@ -121,7 +125,7 @@ theorem sim_loop {α : Type} {m : Meta} {name : String} {a b : Node} {ca PRO BOD
           (vm (k0 + 13) (S acc0 ++ st)
             (scopeSet "i" (.int .int ((0 : Nat) : Int)) (scopeSet "array" coll (scopeSet "size" (.int .int N) sc0)) :: scs) σ1 c.budget) := by
         show Runs c P _ (Res.ok _)
-        refine Runs.andThen (Runs.len hlen) (Q := .ok _) ?_ ?_
+        refine Runs.andThen (Runs.len hlen (fun e he => by rw [hl] at he; cases he)) (Q := .ok _) ?_ ?_
         · intro v hv
           rw [hl] at hv; cases hv
           refine Runs.store hlen.tail1 hK.size ?_
@@ -139,12 +143,12 @@ theorem sim_loop {α : Type} {m : Meta} {name : String} {a b : Node} {ca PRO BOD
          lookup_set_same _ _ _⟩
       have hextra := hEx _ _ _ "i" (.int .int ((0 : Nat) : Int)) (.inl rfl)
         (hEx _ _ _ "array" coll (.inr (.inr rfl)) (hEx _ _ _ "size" (.int .int N) (.inr (.inl rfl)) hex0))
-      have hiter := fun res1 σ2 (hlv : loopIdx (fb coll) N 0 acc0 σ1 = (res1, σ2)) =>
+      have hiter := fun res1 σ2 (hlv : loopIdx (fb coll) N 0 acc0 σ1 = (res1, σ2)) (hbr : RBlame P l res1) =>
         loop_iter (fb coll) S Extra (fun sc j acc v h => hEx sc j acc "i" v (.inl rfl) h) coll N hnS
-          (k0 + 32 + lsize BODY) hhead hK (Hbody coll N k0 st scs hle hnS) N 0 acc0 _ σ1 res1 σ2 (by omega) hbase hextra hlv
+          (k0 + 32 + lsize BODY) hhead hK (Hbody coll N k0 st scs hle hnS) N 0 acc0 _ σ1 res1 σ2 (by omega) hbase hextra hlv hbr
       rcases SM.bind_cases hrest with ⟨e, hle', rfl⟩ | ⟨r1, σ2, hlv, hrest2⟩
-      · exact hiter _ _ hle'
-      · have hpost := hiter _ _ hlv
+      · exact hiter _ _ hle' (RBlame.err (hbl _ _ _ _ hev0))
+      · have hpost := hiter _ _ hlv (RBlame.ok _)
         cases r1 with
         | inr v =>
           obtain ⟨sc', hr⟩ := hpost
@@ -160,6 +164,7 @@ theorem sim_loop {α : Type} {m : Meta} {name : String} {a b : Node} {ca PRO BOD
           obtain ⟨sc', hb', he', hr⟩ := hpost
           refine Reach.runs hr ?_
           have := Hepi coll N (k0 + 31 + lsize BODY) st scs σ2 sc' accF res σ' hepi' hb' he' hrest2
+            (fun e he => hbl _ _ e _ (he ▸ hev0))
           exact this.to_ip hfinal
 end
 
